@@ -43,7 +43,12 @@ int main(int argc, char **argv) {
     bool delim = e >= 0 && ((size_t)e == n || isWs(e) || t[e] == ',' || t[e] == ']' || t[e] == '}');
     if (delim && !ok) replay_io::fail("A1 RFC 8259 number not accepted");
     if (delim && p._pos != (size_t)e) replay_io::fail("A2 RFC 8259 number not delimited exactly");
-    if (ok && !((o.isInt() || o.isDouble()))) replay_io::fail("N4 value is not a number"); }
+    if (ok && !((o.isInt() || o.isDouble()))) replay_io::fail("N4 value is not a number");
+    if (delim && ok) { // natively the conversion is real: compare type and value with strtod / strtoll on the token (reference)
+      std::string tok = t.substr(pos, (size_t)e - pos); bool fe = tok.find_first_of(".eE") != std::string::npos;
+      if (fe && !o.isDouble()) replay_io::fail("A3 number with fraction or exponent is not a Double: token " + tok + (o.isInt() ? " -> Int " + std::to_string(o.getInt()) : ""));
+      if (fe && o.getDouble() != strtod(tok.c_str(), nullptr)) replay_io::fail("value differs from strtod(token) for " + tok);
+      if (!fe && o.isInt() && o.getInt() != strtoll(tok.c_str(), nullptr, 10)) replay_io::fail("value differs from strtoll(token) for " + tok); } }
   delete[] buf;
   replay_io::ok("contract clauses hold on this input");
   return 0;
